@@ -493,7 +493,26 @@ func (c *cloner) etaExpand(a ast.Expr) {
 			}
 		}
 	}
-	lit := &ast.FuncLit{Type: &ast.FuncType{Func: pos, Params: params, Results: results}, Body: &ast.BlockStmt{Lbrace: pos, List: out, Rbrace: a.End()}}
+	// helpers called from the absorbed body (in its returns, say) are absorbed in a second pass over the literal's body
+	blk := &ast.BlockStmt{Lbrace: pos, List: out, Rbrace: a.End()}
+	for pass := 0; pass < 2; pass++ {
+		again := false
+		ast.Inspect(blk, func(n ast.Node) bool {
+			if call, ok := n.(*ast.CallExpr); ok {
+				if fn2, _ := sub.callee(c.dst, call); fn2 != nil {
+					again = true
+				}
+			}
+			return !again
+		})
+		if !again {
+			break
+		}
+		sub2 := sub
+		sub2.src = c.dst
+		blk = sub2.block(blk)
+	}
+	lit := &ast.FuncLit{Type: &ast.FuncType{Func: pos, Params: params, Results: results}, Body: blk}
 	c.dst.Types[lit] = types.TypeAndValue{Type: lsig}
 	if c.eta == nil {
 		c.eta = map[ast.Node]ast.Expr{}
